@@ -1,0 +1,15 @@
+//go:build verif
+
+package storage
+
+// VerifLockYield, when set by the verification harness, is called by a
+// non-private MemCachedStore right before it takes its mutex (site names the
+// place), so that the harness can decide how a concurrent Persist interleaves
+// with other users of the store.
+var VerifLockYield func(site string)
+
+func verifLockYield(site string) {
+	if f := VerifLockYield; f != nil {
+		f(site)
+	}
+}
